@@ -198,10 +198,10 @@ func TestMina(t *testing.T) {
 		}
 
 		// ONE alteration
-		alt := rapid.SampledFrom([]string{
+		alt := flatPick(t, "alt", []string{
 			"msg-bit", "msg-field", "msg-extra-bit", "msg-extra-byte", "R+G", "R-neg", "R-other", "R-identity", "s+1", "s-neg", "s-random", "s-zero",
 			"E-replaced", "E-nil", "forged-with-E", "pk-other", "pk-neg", "pk+G", "pk-identity", "nid",
-		}).Draw(t, "alt")
+		})
 		aR, as, aP, am, anid := R, s, P, mm, nid
 		aE := sig.E
 		switch alt {
